@@ -156,6 +156,8 @@ pub fn all_specs() -> Vec<SpecId> {
     let mut v = MAINNET_SPECS.to_vec();
     v.push(SpecId::OSAKA);
     v.push(SpecId::LATEST);
+    #[cfg(feature = "op")]
+    v.extend([SpecId::BEDROCK, SpecId::REGOLITH, SpecId::CANYON, SpecId::ECOTONE, SpecId::FJORD, SpecId::GRANITE, SpecId::HOLOCENE, SpecId::ISTHMUS]);
     v
 }
 pub fn spec_name(s: SpecId) -> String {
